@@ -1,117 +1,7 @@
--- GENERATED by tools/translate.py from ir/src/ir_types.rs, ir/src/layout_checker.rs -- do not edit
+-- GENERATED STUB: tools/translate.py could not read the source for LayoutTables
+-- ExtractError: check_layout: statement 'let offsets_match = match offsets_match(module, ty) { Some(same) => same, None => return Err(LayoutError::UnknownLayout(loc)), }' is outside the op vocabulary
 namespace RsslVerif.Gen.LayoutTables
-
-inductive Scalar where
-  | Bool
-  | IntLiteral
-  | Int32
-  | UInt32
-  | FloatLiteral
-  | Float16
-  | Float32
-  | Float64
-  deriving DecidableEq, Repr, Inhabited
-
-def Scalar.all : List Scalar := [.Bool, .IntLiteral, .Int32, .UInt32, .FloatLiteral, .Float16, .Float32, .Float64]
-
-/-- `ScalarType::get_size` -/
-def scalarSize : Scalar → Option Nat
-  | .Bool => some 4
-  | .IntLiteral => none
-  | .Int32 => some 4
-  | .UInt32 => some 4
-  | .FloatLiteral => none
-  | .Float16 => some 2
-  | .Float32 => some 4
-  | .Float64 => some 8
-
-/-- one `u32` statement of `get_type_layout` (fixed vocabulary of the translator) -/
-inductive Op where
-  | addMemberSize
-  | alignGetsSize
-  | alignUpToMember
-  | maxAlign
-  | mulSizeCount
-  | mulSizeX
-  | roundSizeToAlign
-  | xNextPow2
-  deriving DecidableEq, Repr, Inhabited
-
-inductive Mode where | hlsl | metal deriving DecidableEq, Repr, Inhabited
-
-inductive LayerKind where | none | panic | scalar | vector | struct | underlying | array | inner
-  deriving DecidableEq, Repr, Inhabited
-
-inductive Layer where
-  | ArraySized
-  | ArrayUnsized
-  | Enum
-  | Matrix
-  | Modifier
-  | Object
-  | Scalar
-  | Struct
-  | StructTemplate
-  | TemplateParam
-  | Vector
-  | Void
-  deriving DecidableEq, Repr, Inhabited
-
-/-- what the arm of `get_type_layout` for this `TypeLayer` does -/
-def layerKind : Layer → LayerKind
-  | .ArraySized => .array
-  | .ArrayUnsized => .none
-  | .Enum => .underlying
-  | .Matrix => .none
-  | .Modifier => .inner
-  | .Object => .none
-  | .Scalar => .scalar
-  | .Struct => .struct
-  | .StructTemplate => .panic
-  | .TemplateParam => .panic
-  | .Vector => .vector
-  | .Void => .none
-
-/-- `TypeLayer::Scalar(ScalarType::Bool) => None` precedes the scalar arm -/
-def boolHasNoLayout : Bool := true
-
-/-- Vector arm, after the recursive call on the scalar; `x` = component count -/
-def vectorOps : Mode → List Op
-  | .hlsl => [.mulSizeX]
-  | .metal => [.xNextPow2, .mulSizeX, .alignGetsSize]
-
-/-- `Layout { size, align }` the Struct arm starts from -/
-def structInit : Nat × Nat := (0, 1)
-
-/-- Struct arm, per member, after the recursive call on the member type -/
-def structMemberOps : Mode → List Op
-  | .hlsl => [.alignUpToMember, .addMemberSize, .maxAlign]
-  | .metal => [.alignUpToMember, .addMemberSize, .maxAlign]
-
-/-- Struct arm, after the member loop -/
-def structFinalOps : Mode → List Op
-  | .hlsl => []
-  | .metal => []
-
-/-- Array(ty, Some(count)) arm, after the recursive call on the element -/
-def arrayOps : Mode → List Op
-  | .hlsl => [.mulSizeCount]
-  | .metal => [.mulSizeCount]
-
-/-- object kinds whose element type `check_layout` validates -/
-def checkedObjects : List String := ["StructuredBuffer", "RWStructuredBuffer"]
-
-/-- intrinsics whose template argument `check_layout` validates -/
-def checkedIntrinsics : List String := ["ByteAddressBufferLoadT", "RWByteAddressBufferLoadT", "RWByteAddressBufferStore", "BufferAddressLoad", "RWBufferAddressLoad", "RWBufferAddressStore"]
-
-/-- `check_layout`: adjustments of the two layouts before they are compared -/
-def checkTopOps : Mode → List Op
-  | .hlsl => [.roundSizeToAlign]
-  | .metal => [.roundSizeToAlign]
-
-inductive Compare where | sizeOnly | sizeAndAlign deriving DecidableEq, Repr, Inhabited
-
-/-- what `check_layout` compares -/
-def checkCompare : Compare := .sizeOnly
-
+/-- extraction failed: every dependent theorem must stop checking -/
+theorem extraction_failed : False := by
+  exact (by decide : (0 : Nat) = 1)
 end RsslVerif.Gen.LayoutTables
